@@ -113,6 +113,14 @@ func Workers() int {
 	if n > 16 {
 		n = 16
 	}
+	// On an oversubscribed machine more workers only add contention: scale down with the
+	// 1-minute load average (the explored space does not depend on the worker count).
+	if data, err := os.ReadFile("/proc/loadavg"); err == nil {
+		var load float64
+		if _, err := fmt.Sscan(string(data), &load); err == nil && load > float64(2*n) {
+			n = n / 4
+		}
+	}
 	if n < 1 {
 		n = 1
 	}
